@@ -74,7 +74,15 @@ func engaRunCase(t *rapid.T, o engaCaseOpts) *engaCase {
 		s.stats.holds++
 		s.tracef("SCHED early hold class %d mask %b until %d drop=%v", h.cls, h.dstMask, h.until, h.drop)
 	}
+	lateMacro := rapid.IntRange(0, 5).Draw(t, "lateMacro") == 0
 	c.stopped = s.guard(func() {
+		if lateMacro {
+			// constructive bias, see macroLatePayload; sometimes after a committed round so that it hits round 2
+			if rapid.IntRange(0, 3).Draw(t, "lateAfterRound") == 0 {
+				s.runBenign(1, 1500, sc.entropy)
+			}
+			sc.macroLatePayload()
+		}
 		for i := 0; i < prefix; i++ {
 			if !s.benignStep(sc.entropy()) {
 				break
